@@ -49,21 +49,31 @@ Fixpoint flag_toggles (fuel : nat) (i : input) (any : bool) : option input :=
   | O => if any then Some i else None
   | S f =>
       match i_s i with
-      | 105 :: r => flag_toggles f (set_ci (adv1 i 105 r) true) true
-      | 45 :: 105 :: r => flag_toggles f (set_ci (adv1 (adv1 i 45 (105 :: r)) 105 r) false) true
-      | _ => if any then Some i else None
+      | c :: r =>
+          if c =? c_i then flag_toggles f (set_ci (adv1 i c r) true) true
+          else if c =? c_minus then
+            match r with
+            | c2 :: r2 =>
+                if c2 =? c_i then flag_toggles f (set_ci (adv1 (adv1 i c r) c2 r2) false) true
+                else if any then Some i else None
+            | [] => if any then Some i else None
+            end
+          else if any then Some i else None
+      | [] => if any then Some i else None
       end
   end.
 
 (* delimited(tag("(?"), many1(...), tag(")")) *)
 Definition flag_group (i : input) : option input :=
   match i_s i with
-  | 40 :: 63 :: r =>
-      let i1 := adv1 (adv1 i 40 (63 :: r)) 63 r in
-      match flag_toggles (length r) i1 false with
-      | Some i2 => tag1 c_rparen i2
-      | None => None
-      end
+  | c1 :: c2 :: r =>
+      if (c1 =? c_lparen) && (c2 =? c_qmark) then
+        let i1 := adv1 (adv1 i c1 (c2 :: r)) c2 r in
+        match flag_toggles (length r) i1 false with
+        | Some i2 => tag1 c_rparen i2
+        | None => None
+        end
+      else None
   | _ => None
   end.
 
@@ -135,12 +145,14 @@ Definition class_arch (s : str) : option (arch * str) :=
   | None => None
   | Some (a, r) =>
       match r with
-      | 45 :: r1 =>
-          match class_char r1 with
-          | Some (b, r2) => Some (ARange a b, r2)
-          | None => Some (AChar a, r)
-          end
-      | _ => Some (AChar a, r)
+      | c :: r1 =>
+          if c =? c_minus then
+            match class_char r1 with
+            | Some (b, r2) => Some (ARange a b, r2)
+            | None => Some (AChar a, r)
+            end
+          else Some (AChar a, r)
+      | [] => Some (AChar a, r)
       end
   end.
 
@@ -155,14 +167,16 @@ Fixpoint class_archs (fuel : nat) (s : str) : list arch * str :=
 
 Definition p_class (i : input) : option (leaf * input) :=
   match i_s i with
-  | 91 :: r =>
-      let '(neg, r1) := match r with 33 :: r' => (true, r') | _ => (false, r) end in
-      let '(archs, r2) := class_archs (length r1) r1 in
-      match archs, r2 with
-      | _ :: _, 93 :: r3 => Some (LClass neg archs, adv i (consumed_of (i_s i) r3) r3)
-      | _, _ => None
-      end
-  | _ => None
+  | c :: r =>
+      if c =? c_lbrack then
+        let '(neg, r1) := match r with c2 :: r' => if c2 =? c_bang then (true, r') else (false, r) | [] => (false, r) end in
+        let '(archs, r2) := class_archs (length r1) r1 in
+        match archs, r2 with
+        | _ :: _, c3 :: r3 => if c3 =? c_rbrack then Some (LClass neg archs, adv i (consumed_of (i_s i) r3) r3) else None
+        | _, _ => None
+        end
+      else None
+  | [] => None
   end.
 
 (* ---- wildcards --------------------------------------------------------------------------------- *)
@@ -185,27 +199,34 @@ Definition zom_lookahead (i : input) : bool :=
   end.
 
 Definition p_wildcard (tm : terminator) (i : input) : option (leaf * input) :=
-  match i_s i with
-  | 63 :: r => Some (LOne, adv1 i 63 r)
-  | _ =>
+  let head_is (c : char) : bool := match i_s i with d :: _ => d =? c | [] => false end in
+  if head_is c_qmark then
+    match i_s i with c :: r => Some (LOne, adv1 i c r) | [] => None end
+  else
       (* tree *)
       let tree :=
         let prefix :=
           match i_s i with
-          | 47 :: r => Some (true, flags_with_state (adv1 i 47 r))
-          | _ => if N.eqb (i_sub i) (i_pos i) then Some (false, flags_with_state i) else None
+          | c :: r =>
+              if c =? SEP then Some (true, flags_with_state (adv1 i c r))
+              else if N.eqb (i_sub i) (i_pos i) then Some (false, flags_with_state i) else None
+          | [] => if N.eqb (i_sub i) (i_pos i) then Some (false, flags_with_state i) else None
           end in
         match prefix with
         | None => None
         | Some (root, i1) =>
             match i_s i1 with
-            | 42 :: 42 :: r =>
-                let i2 := adv1 (adv1 i1 42 (42 :: r)) 42 r in
-                let i3 := flags_with_state i2 in
-                match i_s i3 with
-                | 47 :: r3 => Some (LTree root, adv1 i3 47 r3)
-                | _ => if term_ok tm i2 then Some (LTree root, i2) else None
-                end
+            | c1 :: c2 :: r =>
+                if (c1 =? c_star) && (c2 =? c_star) then
+                  let i2 := adv1 (adv1 i1 c1 (c2 :: r)) c2 r in
+                  let i3 := flags_with_state i2 in
+                  match i_s i3 with
+                  | c3 :: r3 =>
+                      if c3 =? SEP then Some (LTree root, adv1 i3 c3 r3)
+                      else if term_ok tm i2 then Some (LTree root, i2) else None
+                  | [] => if term_ok tm i2 then Some (LTree root, i2) else None
+                  end
+                else None
             | _ => None
             end
         end in
@@ -213,16 +234,16 @@ Definition p_wildcard (tm : terminator) (i : input) : option (leaf * input) :=
       | Some x => Some x
       | None =>
           match i_s i with
-          | 42 :: r =>
-              let i1 := adv1 i 42 r in
-              if zom_lookahead i1 || term_ok tm i1 then Some (LZom false, i1) else None
-          | 36 :: r =>
-              let i1 := adv1 i 36 r in
-              if zom_lookahead i1 || term_ok tm i1 then Some (LZom true, i1) else None
-          | _ => None
+          | c :: r =>
+              let i1 := adv1 i c r in
+              if c =? c_star then
+                if zom_lookahead i1 || term_ok tm i1 then Some (LZom false, i1) else None
+              else if c =? c_dollar then
+                if zom_lookahead i1 || term_ok tm i1 then Some (LZom true, i1) else None
+              else None
+          | [] => None
           end
-      end
-  end.
+      end.
 
 (* ---- repetition bounds --------------------------------------------------------------------------- *)
 Definition is_digit (c : char) : bool := (48 <=? c) && (c <=? 57).
@@ -240,9 +261,9 @@ Definition parse_usize (d : str) : option N :=
 
 (* error::context("bounds", bounds) *)
 Definition p_bounds (i : input) : (N * option N) * input :=
-  match i_s i with
-  | 58 :: r =>
-      let i1 := adv1 i 58 r in
+  match (match i_s i with c :: r => if c =? c_colon then Some (c, r) else None | [] => None end) with
+  | Some (c, r) =>
+      let i1 := adv1 i c r in
       let '(d1, r1) := digits r in
       let converged :=
         (* map_res(digit1, parse) *)
@@ -253,17 +274,17 @@ Definition p_bounds (i : input) : (N * option N) * input :=
              end in
       if is_nil d1 then ((1, None), i1)
       else
-        match r1 with
-        | 44 :: r2 =>
+        match (match r1 with c4 :: r2 => if c4 =? c_comma then Some r2 else None | [] => None end) with
+        | Some r2 =>
             let '(d2, r3) := digits r2 in
             let consumed := d1 ++ [c_comma] ++ d2 in
             match parse_usize d1, (if is_nil d2 then Some None else option_map Some (parse_usize d2)) with
             | Some lo, Some hi => ((lo, hi), adv i1 consumed r3)
             | _, _ => converged
             end
-        | _ => converged
+        | None => converged
         end
-  | _ => ((0, None), i)
+  | None => ((0, None), i)
   end.
 
 (* ---- the recursive grammar -------------------------------------------------------------------------- *)
@@ -313,9 +334,9 @@ with p_token (fuel : nat) (tm : terminator) (i : input) : pres (tok * input) :=
       | None =>
       (* repetition *)
       let rep : pres (option (tok * input)) :=
-        match i_s iF with
-        | 60 :: r =>
-            match p_glob f TermRep (adv1 iF 60 r) with
+        match (match i_s iF with c :: r => if c =? c_lt then Some (c, r) else None | [] => None end) with
+        | Some (c, r) =>
+            match p_glob f TermRep (adv1 iF c r) with
             | PFuel => PFuel
             | PErr => POk None
             | POk (body, i1) =>
@@ -325,7 +346,7 @@ with p_token (fuel : nat) (tm : terminator) (i : input) : pres (tok * input) :=
                 | None => POk None
                 end
             end
-        | _ => POk None
+        | None => POk None
         end in
       match rep with
       | PFuel => PFuel
@@ -334,9 +355,9 @@ with p_token (fuel : nat) (tm : terminator) (i : input) : pres (tok * input) :=
       | POk None =>
       (* alternation *)
       let alt : pres (option (tok * input)) :=
-        match i_s iF with
-        | 123 :: r =>
-            match p_branches f (adv1 iF 123 r) with
+        match (match i_s iF with c :: r => if c =? c_lbrace then Some (c, r) else None | [] => None end) with
+        | Some (c, r) =>
+            match p_branches f (adv1 iF c r) with
             | PFuel => PFuel
             | PErr => POk None
             | POk (bs, i1) =>
@@ -345,7 +366,7 @@ with p_token (fuel : nat) (tm : terminator) (i : input) : pres (tok * input) :=
                 | None => POk None
                 end
             end
-        | _ => POk None
+        | None => POk None
         end in
       match alt with
       | PFuel => PFuel
@@ -359,9 +380,9 @@ with p_token (fuel : nat) (tm : terminator) (i : input) : pres (tok * input) :=
       match leaf_tok i (p_class iF) with
       | Some x => POk x
       | None =>
-      match i_s iF with
-      | 47 :: r => POk (TLeaf (mk_span i (adv1 iF 47 r)) LSep, adv1 iF 47 r)
-      | _ => PErr
+      match (match i_s iF with c :: r => if c =? SEP then Some (c, r) else None | [] => None end) with
+      | Some (c, r) => POk (TLeaf (mk_span i (adv1 iF c r)) LSep, adv1 iF c r)
+      | None => PErr
       end end end end end end
   end
 (* multi::separated_list1(tag(","), glob(peek(alt((tag(","), tag("}")))))) *)
@@ -373,14 +394,14 @@ with p_branches (fuel : nat) (i : input) : pres (list tok * input) :=
       | PFuel => PFuel
       | PErr => PErr
       | POk (b, i1) =>
-          match i_s i1 with
-          | 44 :: r =>
-              match p_branches f (adv1 i1 44 r) with
+          match (match i_s i1 with c :: r => if c =? c_comma then Some (c, r) else None | [] => None end) with
+          | Some (c, r) =>
+              match p_branches f (adv1 i1 c r) with
               | PFuel => PFuel
               | PErr => POk ([b], i1)   (* the element after the separator failed: stop before the separator *)
               | POk (bs, i2) => POk (b :: bs, i2)
               end
-          | _ => POk ([b], i1)
+          | None => POk ([b], i1)
           end
       end
   end
